@@ -69,3 +69,4 @@ pub mod c35;
 pub mod c37;
 pub mod c30;
 pub mod c24;
+pub mod c29;
